@@ -120,9 +120,12 @@ class Mirror:
             self._call(ev[1], ev[2])
         elif kind == 'chain':
             self._chain(ev[1], ev[2], ev[3])
-        elif kind == 'burst':
+        elif kind in ('burst', 'burstc'):
+            first = len(self.callers)
             for a, k in ev[1]:
                 self._call(a, k)
+            if kind == 'burstc' and 0 <= first + ev[2] < len(self.callers):
+                self.callers[first + ev[2]][2] = True
         elif kind == 'adv':
             target = self.now + ev[1]
             while True:
@@ -231,7 +234,7 @@ def enum_programs(cfg, alphabet, depth, max_calls, finish='blind', limit=None):
         for e in m_evs:
             m.apply(e)
         for e in alphabet(m, m_evs):
-            if e[0] in ('call', 'burst', 'chain') and n_calls(m_evs) + n_calls([e]) > max_calls:
+            if e[0] in ('call', 'burst', 'burstc', 'chain') and n_calls(m_evs) + n_calls([e]) > max_calls:
                 continue
             rec(m_evs + [e])
     rec([])
@@ -287,6 +290,12 @@ def rand_program(rnd, cfg, n_events, weights, keys=3, args=3, max_calls=10, dist
             more = rnd.randint(1, min(3, max_calls - ncalls - 1))
             e = ['chain', a, k, more]
             ncalls += 1 + more
+        elif kind == 'burstc' and ncalls + 2 <= max_calls:
+            # a burst larger than the batcher can have in flight, one of the late members cancelled at once
+            n = rnd.randint(2, min(7, max_calls - ncalls))
+            l = [new_call() for _ in range(n)]
+            e = ['burstc', l, rnd.randrange(n) if rnd.random() < 0.4 else n - 1 - rnd.randrange(min(2, n))]
+            ncalls += n
         elif kind == 'burst' and ncalls + 2 <= max_calls:
             n = rnd.randint(2, min(5, max_calls - ncalls))
             e = ['burst', [new_call() for _ in range(n)]]
